@@ -528,3 +528,40 @@ Example C02_simulation_with_filters_nonvacuous :
   = [([(VFin (111 # 160), ([0%nat], [], [0%nat])); (VFin (79 # 20), ([1%nat], [], [0%nat]))], ([[0; 1]], [], [[1 # 3; 3 # 2]]));
      ([(VFin 0, ([0%nat], [], [0%nat])); (VFin 4, ([0%nat], [], [4%nat]))], ([[0; 1]], [], [[2 # 6; 8 # 4]]))].
 Proof. vm_compute. reflexivity. Qed.
+
+(* ---- C06 for the code: an on-grid agent's recorded value is the entry of the solved array ---------------------------------- *)
+From LCM Require Import Proofs.C01_Agents.
+(* In the loop of C02_every_simulated_row_is_a_feasible_maximiser (no filter-restricted variables): when agent i is, in period t,   *)
+(* at the grid point (ds, cs), the value recorded for (t, i) is the entry of the array solve returned for period t at position       *)
+(* ds ++ cs -- both are the specification's value of that state with the array of period t+1 as next value function.                 *)
+Theorem C02_on_grid_simulated_value_is_the_solved_entry :
+  forall (m : model) (p : params) (n : nat) (dch cch : list (string * grid)),
+  let dst := dstates (states m) in let cst := cstates (states m) in
+  Permutation (dch ++ cch) (choices m) -> NoDup (map fst (choices m)) -> NoDup (map fst (states m)) -> grids_valid (states m) ->
+  NoDup (map fst (dst ++ dch ++ cst ++ cch)) -> (1 <= n)%nat ->
+  forall (nag : nat) (trans : S_states -> list (list nat * list nat) -> nat -> list key -> S_states)
+         (initial : S_states) (seed : nat) (prng : nat -> key) (n_stoch : nat),
+  let st := states_at m p n dch cch nag trans initial seed prng n_stoch in
+  (forall t, (t < n)%nat ->
+     length (fst (st t)) = length dst /\ length (snd (st t)) = length cst /\
+     Forall (fun c : list Q => length c = nag) (fst (st t) ++ snd (st t)) /\ (fst (st t) ++ snd (st t))%list <> []) ->
+  (forall t i dc cc, (S t < n)%nat -> (i < nag)%nat -> in_bounds (sizes dch) dc -> in_bounds (sizes cch) cc ->
+     evaluates_at m p (next_table m p n dch cch t) (agent_env t dst dch cst cch (fst (st t)) (snd (st t)) i dc cc)) ->
+  (forall t i dc cc, S t = n -> (i < nag)%nat -> in_bounds (sizes dch) dc -> in_bounds (sizes cch) cc ->
+     exists u, eval_fun (depth m) m p (agent_env t dst dch cst cch (fst (st t)) (snd (st t)) i dc cc) "utility" = Some u) ->
+  forall t i ds cs, (t < n)%nat -> (i < nag)%nat -> in_bounds (sizes dst) ds -> in_bounds (sizes cst) cs ->
+  at_row (fst (st t)) i = map snd (env_of_idx dst ds) -> at_row (snd (st t)) i = map snd (env_of_idx cst cs) ->
+  ((S t < n)%nat -> forall ds' dc cs' cc,
+     in_bounds (sizes dst) ds' -> in_bounds (sizes dch) dc -> in_bounds (sizes cst) cs' -> in_bounds (sizes cch) cc ->
+     evaluates_at m p (next_table m p n dch cch t) (spec_env t dst dch cst cch ds' dc cs' cc)) ->
+  (S t = n -> forall ds' dc cs' cc,
+     in_bounds (sizes dst) ds' -> in_bounds (sizes dch) dc -> in_bounds (sizes cst) cs' -> in_bounds (sizes cch) cc ->
+     exists u, eval_fun (depth m) m p (spec_env t dst dch cst cch ds' dc cs' cc) "utility" = Some u) ->
+  veq (C02_SimulateAll.row_value m p n dch cch nag trans initial seed prng n_stoch t i)
+      (get VUndef (nth t (code_solve m p n dch cch) (scalar VUndef)) (ds ++ cs)%list).
+Proof.
+  intros m p n dch cch dst cst H1 H2 H3 H4 H5 H6 nag trans initial seed prng n_stoch st F1 F2 F3 t i ds cs Ht Hi Hds Hcs E1 E2 G1 G2.
+  exact (on_grid_row_value_is_the_solved_entry m p n dch cch H1 H2 H3 H4 H5 H6 nag trans initial seed prng n_stoch F1 F2 F3 t i ds cs
+           Ht Hi Hds Hcs E1 E2 G1 G2).
+Qed.
+Print Assumptions C02_on_grid_simulated_value_is_the_solved_entry.
